@@ -45,6 +45,8 @@ type Session struct {
 	lsession    string // 本地会话标识
 	timeout     time.Duration
 	conn        websocket.Conn
+	wsPath      string // path and user the HTTP side verified for the control channel
+	wsUser      string
 	lockW       sync.Mutex
 	dataChannel websocket.Conn
 
@@ -75,6 +77,8 @@ func newSession(svr *Server, conn websocket.Conn, channelID string) *Session {
 		lsession:  security.NewID().Base64(),
 		timeout:   config.NetTimeout() * time.Duration(2),
 		conn:      conn,
+		wsPath:    conn.Path(),
+		wsUser:    conn.Username(),
 		transport: rtsp.RTPTransport{
 			Mode: rtsp.PlaySession, // 默认为播放
 			Type: rtsp.RTPUnknownTrans,
